@@ -53,7 +53,40 @@ func (s *State) Heap(vc *VC, name string, sort Sort) Term {
 	if fresh && strings.HasPrefix(name, "Mv_") {
 		vc.mapWF(s, name)
 	}
+	if fresh && s.top.S != "" {
+		vc.storedRefsAllocated(name, t, s.top)
+	}
 	return t
+}
+
+// storedRefsAllocated: references stored in the heap denote allocated objects
+// (well-formedness of states; asserted for every fresh heap constant).
+func (vc *VC) storedRefsAllocated(name string, h Term, top Term) {
+	ht, ok := vc.env.heapTypes[name]
+	if !ok {
+		return
+	}
+	var refOf func(v string) string
+	switch ht.t.Underlying().(type) {
+	case *types.Pointer, *types.Map, *types.Chan:
+		refOf = func(v string) string { return v }
+	case *types.Slice:
+		refOf = func(v string) string { return "(sl-arr " + v + ")" }
+	case *types.Interface:
+		refOf = func(v string) string { return "(if-val " + v + ")" }
+	default:
+		return
+	}
+	ks := arrayKeySort(h.Sort)
+	if ht.isMap {
+		inner := arrayValSort(h.Sort)
+		kk := arrayKeySort(inner)
+		sel := fmt.Sprintf("(select (select %s m) k)", h.S)
+		vc.assume(Term{fmt.Sprintf("(forall ((m %s) (k %s)) (! (<= (base %s) %s) :pattern (%s)))", ks, kk, refOf(sel), top.S, sel), SBool})
+		return
+	}
+	sel := fmt.Sprintf("(select %s r)", h.S)
+	vc.assume(Term{fmt.Sprintf("(forall ((r %s)) (! (<= (base %s) %s) :pattern (%s)))", ks, refOf(sel), top.S, sel), SBool})
 }
 
 // mapWF: representation invariant of the map model for the current constants of
